@@ -408,6 +408,22 @@ func (x *wexec) writer(si int, s WStep, bad bool) {
 			x.endSent(cm)
 			continue
 		}
+		if p.API == "prepctl" {
+			// a prepared ping/pong sent while the message is open: like
+			// WriteControl it goes between the message's frames and must not end it
+			cd := p.Data.Bytes()
+			cm := x.newSent(p.MT, cd, si, false)
+			x.tw.Sent[cm].Prepared = true
+			x.call(si, pi+1, "WritePreparedMessage", false, cm, func() error {
+				pm, e := websocket.NewPreparedMessage(p.MT, cd)
+				if e != nil {
+					return e
+				}
+				return c.WritePreparedMessage(pm)
+			})
+			x.endSent(cm)
+			continue
+		}
 		n := p.Len
 		if n > len(rest) {
 			n = len(rest)
@@ -609,7 +625,7 @@ func genParts(t *rapid.T, n, w int, allowCtl bool, apis []string) []WPart {
 	remaining := n
 	for i := 0; i < k; i++ {
 		if allowCtl && rapid.IntRange(0, 5).Draw(t, "ctlpart") == 0 {
-			parts = append(parts, WPart{API: "control", MT: rapid.SampledFrom([]int{websocket.PingMessage, websocket.PongMessage}).Draw(t, "ctlmt"), Data: genCtlPayload(t, "ctlp")})
+			parts = append(parts, WPart{API: rapid.SampledFrom([]string{"control", "control", "prepctl"}).Draw(t, "ctlapi"), MT: rapid.SampledFrom([]int{websocket.PingMessage, websocket.PongMessage}).Draw(t, "ctlmt"), Data: genCtlPayload(t, "ctlp")})
 			continue
 		}
 		if allowCtl && rapid.IntRange(0, 9).Draw(t, "togglepart") == 0 {
